@@ -16,7 +16,7 @@ RULE = ("operation sequences (1-60 ops) over add_event/add_events/get_event/get_
         "retrievals and >=1 timestamp tie; distinct = distinct operation-kind/timestamp sequence")
 PROBES = ["tie_same_ts", "tie_same_ts_and_prec", "insert_between_retrievals", "roundtrip", "roundtrip_then_ops",
           "get_current_below_all", "get_current_partial", "nonmonotone_t", "drained_then_reused", "base_event",
-          "restored_vs_original_compared", "failed_bulk_insert", "user_set_precedence", "batch_of_512_or_more"]
+          "restored_vs_original_compared", "failed_bulk_insert", "user_set_precedence", "batch_of_512_or_more", "checkpoint_with_another_heap_layout", "str_or_repr_taken"]
 FAULT_DIMENSION = "restart (JSON round trip of the queue at arbitrary points of the operation sequence); a bulk insert that fails part-way (non-event element) and is survived by the caller"
 REAL_VS_STUB = "real: EventQueue, Event classes, EV, Battery, BaseSimObj JSON; ours: sorted-list reference model"
 ASSUMPTIONS = ["get_event on an empty queue is not generated (unspecified)",
@@ -78,8 +78,10 @@ def gen(rs, tier):
             ops.append({"op": "last_ts"})
         elif k < 0.94:
             ops.append({"op": "queue"})
+            if sub(rs, "show", len(ops)).random() < 0.5:
+                ops.append({"op": "show"})       # the caller prints / logs the queue (str, repr, len, bool, iteration over the read-only view)
         else:
-            ops.append({"op": "roundtrip", "via": r.choice(["str", "str", "buf"])})
+            ops.append({"op": "roundtrip", "via": r.choice(["str", "str", "buf", "other_layout"])})
     return {"seed": rs, "init": init, "ops": ops, "nsess": nsess}
 
 
@@ -280,9 +282,33 @@ def check(sc):
                     if got != sorted(model, key=str) or any(ts != e.timestamp for ts, e in q.queue):
                         out.add("C11/queue_property", "op %d queue %s model %s" % (i, got[:8], sorted(model, key=str)[:8]))
                         break
+                elif o == "show":
+                    for qq in (q, shadow):
+                        if qq is not None:
+                            str(qq), repr(qq), bool(qq), len(qq), [str(e_) for _, e_ in qq.queue], [repr(e_) for _, e_ in qq.queue]
+                    out.probe("str_or_repr_taken")
                 elif o == "roundtrip":
+                    w_prev = w
                     if op["via"] == "str":
                         q2 = sut.EventQueue.from_json(q.to_json())
+                    elif op["via"] == "other_layout":
+                        # a checkpoint of the same pending set whose heap array is laid out differently: the released library writes
+                        # whatever layout its own history of pushes and pops produced, and every valid layout is such a checkpoint
+                        import heapq as _hq
+                        import json as _json
+                        doc = _json.loads(q.to_json())
+                        cd = doc["context_dict"]
+                        qd = next(v_ for v_ in cd.values() if v_["class"].endswith(".EventQueue"))
+                        ent = list(qd["attributes"]["_queue"])
+                        rl = sub(sc["seed"], "layout", i)
+                        rl.shuffle(ent)
+                        heap_ = []
+                        for n_, (ts_, eid_) in enumerate(ent):
+                            _hq.heappush(heap_, (ts_, cd[str(eid_)]["attributes"]["precedence"], rl.random(), n_, eid_))
+                        qd["attributes"]["_queue"] = [[h_[0], h_[4]] for h_ in heap_]
+                        q2 = sut.EventQueue.from_json(_json.dumps(doc))
+                        other_layout = True
+                        out.probe("checkpoint_with_another_heap_layout")
                     else:
                         b = io.StringIO()
                         q.to_json(b)
@@ -297,10 +323,10 @@ def check(sc):
                         ev = getattr(e, "ev", None)
                         if ev is not None and by.setdefault(ev.session_id, ev) is not ev:
                             out.add("C11/roundtrip_shared_ev", "op %d session %s has two EV objects after load" % (i, ev.session_id))
-                    shadow, w_sh = q, w
+                    shadow, w_sh = (None, None) if op["via"] == "other_layout" else (q, w)     # (ties may pop in another order from another layout)
                     q = q2
                     w = World()
-                    for sid_, ev_ in w_sh.evs.items():
+                    for sid_, ev_ in (w_sh.evs if w_sh is not None else w_prev.evs).items():
                         w.evs[sid_] = sut.EV(ev_.arrival, ev_.departure, ev_.requested_energy, ev_.station_id, sid_, sut.Battery(10, 0, 6))
                     for _, e in q.queue:
                         ev = getattr(e, "ev", None)
